@@ -242,7 +242,7 @@ FAMILIES = [
     Family('Sig', methods={'get_param_names': FnSpec('Signature.get_param_names', params=[('resolve_stars', BOOL)],
                                                      defaults={'resolve_stars': False}, ret=Seq(Obj('ParamName')),
                                                      pure=True, assumed=True)}),
-    Family('BN11', attrs={'_name': Obj('NameW')},
+    Family('BN11', attrs={'_name': Obj('NameW'), 'name': STR, 'type': STR, 'module_name': STR},
            methods={'_get_docstring': FnSpec('BaseName._get_docstring', ret=STR, pure=True),
                     '_get_docstring_signature': FnSpec('BaseName._get_docstring_signature', ret=STR, pure=True)}),
 ]
@@ -346,6 +346,40 @@ def _render_contract(n):
 
 RENDER = [_render_contract(n) for n in range(0, 5)]
 
+def _replay_docstring(inp):
+    """the real BaseName.docstring on a definition whose raw docstring and signature text are given"""
+    from pyvc.replay import run_real
+    from jedi.api.classes import BaseName
+
+    class N:
+        string_name = inp['name']
+        api_type = 'function'
+
+        def get_public_name(self):
+            return inp['name']
+
+        def is_value_name(self):
+            return True
+
+        def py__doc__(self):
+            return inp['doc']
+
+    class BN(BaseName):
+        def __init__(self):
+            self._name = N()
+            self.is_keyword = False
+
+        def _get_docstring(self):
+            return inp['doc']
+
+        def _get_docstring_signature(self):
+            return inp['sig']
+    bn = BN()
+    out = run_real(lambda: (bn.docstring(), bn.docstring(raw=True)))
+    exp = inp['sig'] + '\n\n' + inp['doc'] if inp['sig'] and inp['doc'] else inp['sig'] + inp['doc']
+    return {'EXPECTED': exp, 'RAW': inp['doc']}, out
+
+
 _docstring = Contract(
     id='C11.BaseName.docstring', prop='C11',
     clause='docstring() is the raw docstring preceded by the signature line(s), docstring(raw=True) the raw text',
@@ -354,6 +388,11 @@ _docstring = Contract(
     ensures=['implies(not (isinstance(self._name, ImportName) and fast), '
              'result == docstring_spec(self._get_docstring_signature(), self._get_docstring(), raw))',
              'implies(isinstance(self._name, ImportName) and fast, result == "")'],
+    witness={}, replay=_replay_docstring, concrete_only=True,
+    witness_library=[{'name': 'connect', 'sig': 'connect(host, port=80, *, timeout=None)', 'doc': d}
+                     for d in ('connect(host, port) -> socket\n\nOpens it.', 'Opens a connection.', '', 'connect')] +
+                    [{'name': 'f', 'sig': '', 'doc': 'text'}],
+    concrete_ensures=['result[0] == EXPECTED', 'result[1] == RAW'],
 )
 
 def _replay_clean_doc(inp):
